@@ -10,13 +10,14 @@ code -> spec : licences and insertions of the real code on sampled patterns of l
                Trace_C18 (meaning over permutations up to length 5).
 """
 import json
+import random
 
 from permuta import MeshPatt, Perm
 from permuta.misc import DIR_EAST, DIR_NONE, DIR_NORTH, DIR_SOUTH, DIR_WEST
 
 from harness import tlc, util
 
-INVS = ["TypeOK", "LemmaSound", "SimulSound", "AddPointMeaning"]
+INVS = ["TypeOK", "LemmaSound", "SimulSound", "AddPointMeaning", "AsciiScales"]
 DIRS = {"none": DIR_NONE, "E": DIR_EAST, "N": DIR_NORTH, "W": DIR_WEST, "S": DIR_SOUTH}
 SYM = {" ": "E", "▒": "S", "|": "V", "-": "H", "+": "X", "●": "P"}
 
@@ -25,11 +26,11 @@ def mkey(M):
     return (tuple(M.pattern), tuple(sorted(M.shading)))
 
 
-def parse_ascii(text, k):
+def parse_ascii(text, k, size=1):
     rows = text.split("\n")
     out = []
     for r in rows:
-        r = r.ljust(2 * k + 1)
+        r = r.ljust((k + 1) * size + k)
         out.append([SYM.get(ch, "?") for ch in r])
     return out
 
@@ -40,53 +41,75 @@ def judge_state(ctx, rec):
     M = MeshPatt(Perm(p), R)
     base = {"kind": "state", "p": p, "R": sorted(map(list, R))}
     nontriv = False
-    # --- licences
+    # --- licences (asked at the start and once more after everything else was asked of the same object)
+    sem1 = {tuple(e["c"]): e["sem"] for e in rec["cells"]}
+    sem2 = {frozenset((tuple(e["c"]), tuple(e["d"]))): e["sem"] for e in rec["pairs"]}
     licensed = set()
-    for e in rec["cells"]:
-        c = tuple(e["c"])
-        st, got = util.call(M.can_shade, c)
+
+    def licences(asked):
+        nonlocal nontriv
+        mine = set()
+        for e in rec["cells"]:
+            c = tuple(e["c"])
+            forms = [("can_shade(c)", lambda: M.can_shade(c))]
+            if asked == "again":
+                forms = [("can_shade(pos=c)", lambda: M.can_shade(pos=c))]
+            for fname, f in forms:
+                st, got = util.call(f)
+                if st == "raise":
+                    ctx.violation(dict(base, cell=c, form=fname, asked=asked), "NoException", "a list", got)
+                    continue
+                if got:
+                    nontriv = True
+                    mine.add((c,))
+                    if not e["sem"]:
+                        ctx.violation(dict(base, cell=list(c), licence=list(got), form=fname, asked=asked), "LicenceChangesMeaning",
+                                      "no licence (shading this cell changes the set of containing permutations)", list(got))
+                if bool(got) != e["lemma"]:
+                    ctx.drift("can_shade%s of %s is %s, transcribed lemma says %s" % (c, mkey(M), got, e["lemma"]))
+        for e in rec["pairs"]:
+            c, d = tuple(e["c"]), tuple(e["d"])
+            forms = [("can_simul_shade(c, d)", lambda: M.can_simul_shade(c, d)), ("can_simul_shade(d, c)", lambda: M.can_simul_shade(d, c))]
+            if asked == "again":
+                forms = [("can_simul_shade(pos1=d, pos2=c)", lambda: M.can_simul_shade(pos1=d, pos2=c)), ("can_shade2(c, d)", lambda: M.can_shade2(c, d))]
+            for fi, (fname, f) in enumerate(forms):
+                st, got = util.call(f)
+                if st == "raise":
+                    ctx.violation(dict(base, cells=[c, d], form=fname, asked=asked), "NoException", "a list", got)
+                    continue
+                if got:
+                    nontriv = True
+                    mine.add((c, d))
+                    if not e["sem"]:
+                        ctx.violation(dict(base, cells=[list(c), list(d)], licence=list(got), form=fname, asked=asked), "LicenceChangesMeaning",
+                                      "no licence (shading both cells changes the set of containing permutations)", list(got))
+                if bool(got) != e["lemma"] and fi == 0 and asked == "first":
+                    ctx.drift("can_simul_shade%s of %s is %s, transcribed lemma says %s" % ((c, d), mkey(M), got, e["lemma"]))
+        # the table of all shadable boxes must license exactly what the single tests license
+        st, table = util.call(M.shadable_boxes)
         if st == "raise":
-            ctx.violation(dict(base, cell=c), "NoException", "a list", got)
-            continue
-        if got:
-            nontriv = True
-            licensed.add((c,))
-            if not e["sem"]:
-                ctx.violation(dict(base, cell=list(c), licence=list(got)), "LicenceChangesMeaning",
-                              "no licence (shading this cell changes the set of containing permutations)", list(got))
-        if bool(got) != e["lemma"]:
-            ctx.drift("can_shade%s of %s is %s, transcribed lemma says %s" % (c, mkey(M), got, e["lemma"]))
-    for e in rec["pairs"]:
-        c, d = tuple(e["c"]), tuple(e["d"])
-        st, got = util.call(M.can_simul_shade, c, d)
-        if st == "raise":
-            ctx.violation(dict(base, cells=[c, d]), "NoException", "a list", got)
-            continue
-        if got:
-            nontriv = True
-            licensed.add((c, d))
-            if not e["sem"]:
-                ctx.violation(dict(base, cells=[list(c), list(d)], licence=list(got)), "LicenceChangesMeaning",
-                              "no licence (shading both cells changes the set of containing permutations)", list(got))
-        if bool(got) != e["lemma"]:
-            ctx.drift("can_simul_shade%s of %s is %s, transcribed lemma says %s" % ((c, d), mkey(M), got, e["lemma"]))
-    # the table of all shadable boxes must license exactly what the single tests license
-    st, table = util.call(M.shadable_boxes)
-    if st == "raise":
-        ctx.violation(base, "NoException", "a dict", table)
-    else:
-        sem1 = {tuple(e["c"]): e["sem"] for e in rec["cells"]}
-        sem2 = {(tuple(e["c"]), tuple(e["d"])): e["sem"] for e in rec["pairs"]}
-        for pnt, boxes in table.items():
-            for b in boxes:
-                b = tuple(tuple(x) for x in b)
-                ok = sem1.get(b[0]) if len(b) == 1 else sem2.get((b[0], b[1]), sem2.get((b[1], b[0])))
-                if not ok:
-                    ctx.violation(dict(base, boxes=[list(x) for x in b], point=pnt), "LicenceChangesMeaning",
-                                  "not in the table", "listed as shadable")
-        flat = {tuple(tuple(x) for x in b) for boxes in table.values() for b in boxes}
-        if flat != licensed:
-            ctx.drift("shadable_boxes of %s lists %s, the single tests license %s" % (mkey(M), sorted(flat), sorted(licensed)))
+            ctx.violation(dict(base, asked=asked), "NoException", "a dict", table)
+        else:
+            for pnt, boxes in table.items():
+                for b in boxes:
+                    b = tuple(tuple(x) for x in b)
+                    ok = sem1.get(b[0]) if len(b) == 1 else sem2.get(frozenset(b))
+                    if not ok:
+                        ctx.violation(dict(base, boxes=[list(x) for x in b], point=pnt, asked=asked), "LicenceChangesMeaning",
+                                      "not in the table", "listed as shadable")
+            flat = {tuple(tuple(x) for x in b) for boxes in table.values() for b in boxes}
+            if flat != mine:
+                ctx.drift("shadable_boxes of %s lists %s, the single tests license %s" % (mkey(M), sorted(flat), sorted(mine)))
+        return mine
+
+    licensed = licences("first")
+    # degenerate / non-adjacent pairs: whatever the code licenses there must preserve the meaning too (the spec's
+    # meaning of shading a set of cells; known from the emitted single / adjacent verdicts where possible)
+    cs = [tuple(e["c"]) for e in rec["cells"]]
+    for c in cs[:: max(1, len(cs) // 4)]:
+        st, got = util.call(M.can_simul_shade, c, c)
+        if st == "ok" and got and not sem1[c]:
+            ctx.violation(dict(base, cells=[list(c), list(c)], licence=list(got)), "LicenceChangesMeaning", "no licence", list(got))
     # --- point insertion
     for e in rec["addp"]:
         c = tuple(e["c"])
@@ -101,6 +124,15 @@ def judge_state(ctx, rec):
             st, got = util.call(getattr(M, name), c)
             if st == "raise" or mkey(got) != want:
                 ctx.violation(dict(base, cell=list(c), op=name), "AddPointIsDiagramInsertion", want, mkey(got) if st == "ok" else got)
+    # the same object again: keyword arguments, another order of cells and directions, after add_increase / add_decrease
+    again = list(rec["addp"])
+    random.Random(len(again) + len(R)).shuffle(again)
+    for e in again:
+        c = tuple(e["c"])
+        want = (tuple(e["p"]), tuple(sorted(map(tuple, e["R"]))))
+        st, got = util.call(lambda: M.add_point(pos=c, shade_dir=DIRS[e["dir"]]))
+        if st == "raise" or mkey(got) != want:
+            ctx.violation(dict(base, cell=list(c), dir=e["dir"], asked="again", form="add_point(pos=, shade_dir=)"), "AddPointIsDiagramInsertion", want, mkey(got) if st == "ok" else got)
     # --- lookups and region tests
     for e in rec["rects"]:
         l, b, r, u = e["r"]
@@ -111,9 +143,16 @@ def judge_state(ctx, rec):
         if st == "raise" or got != e["pointfree"]:
             ctx.violation(dict(base, rect=e["r"]), "RegionPointFree", e["pointfree"], got)
         if (l, b) == (r, u):
-            st, got = util.call(M.is_shaded, (l, b))
-            if st == "raise" or got != e["shaded"]:
-                ctx.violation(dict(base, cell=[l, b]), "RegionShaded", e["shaded"], got)
+            for fname, f in (("is_shaded(c)", lambda: M.is_shaded((l, b))), ("is_shaded(c, None)", lambda: M.is_shaded((l, b), None)),
+                             ("is_shaded(lower_left=c)", lambda: M.is_shaded(lower_left=(l, b)))):
+                st, got = util.call(f)
+                if st == "raise" or got != e["shaded"]:
+                    ctx.violation(dict(base, cell=[l, b], form=fname), "RegionShaded", e["shaded"], got)
+        elif (l + b + r + u) % 3 == 0:
+            st, got = util.call(lambda: (M.is_shaded(lower_left=(l, b), upper_right=(r, u)), M.is_pointfree(lower_left=(l, b), upper_right=(r, u))))
+            if st == "raise" or got != (e["shaded"], e["pointfree"]):
+                ctx.violation(dict(base, rect=e["r"], form="keywords"), "RegionShaded" if st == "raise" or got[0] != e["shaded"] else "RegionPointFree",
+                              [e["shaded"], e["pointfree"]], got)
     st, got = util.call(M.non_pointless_boxes)
     if st == "raise" or {tuple(x) for x in got} != {tuple(x) for x in rec["nonpointless"]}:
         ctx.violation(base, "NonPointlessBoxes", sorted(rec["nonpointless"]), got)
@@ -129,22 +168,127 @@ def judge_state(ctx, rec):
         st, got = util.call(M.shade, c)
         if st == "raise" or mkey(got) != (tuple(p), tuple(sorted(set(R) | {c}))):
             ctx.violation(dict(base, cell=list(c)), "ShadeAddsCell", sorted(set(R) | {c}), got)
-    # --- rendering parses back to the pattern
-    st, txt = util.call(M.ascii_plot)
-    if st == "raise":
-        ctx.violation(base, "NoException", "text", txt)
-    elif parse_ascii(txt, k) != rec["ascii"]:
-        ctx.violation(base, "RenderingFaithful", rec["ascii"], parse_ascii(txt, k))
+    # --- rendering parses back to the pattern (cell sizes 1 and 2, positional and keyword)
+    for size, key, f in ((1, "ascii", M.ascii_plot), (1, "ascii", lambda: M.ascii_plot(cell_size=1)), (2, "ascii2", lambda: M.ascii_plot(2)),
+                         (2, "ascii2", lambda: M.ascii_plot(cell_size=2))):
+        st, txt = util.call(f)
+        if st == "raise":
+            ctx.violation(dict(base, cell_size=size), "NoException", "text", txt)
+        elif parse_ascii(txt, k, size) != rec[key]:
+            ctx.violation(dict(base, cell_size=size), "RenderingFaithful", rec[key], parse_ascii(txt, k, size))
+    # --- the same object asked for its licences again, after insertions, shadings and renderings
+    if licences("again") != licensed:
+        ctx.drift("%s licenses another set of shadings when the same object is asked again" % (mkey(M),))
     ctx.case(mkey(M), nontrivial=nontriv)
 
 
-def sample3(rnd, n):
+def sample3(rnd, n, special=False):
     out = []
-    for _ in range(n):
+    for i in range(n):
         p = util.rand_perm(rnd, 3)
         dens = rnd.choice([0.1, 0.3, 0.5])
         R = [(x, y) for x in range(4) for y in range(4) if rnd.random() < dens]
+        if special and i % 4 == 1:                       # shading only on the border of the grid
+            R = [(x, y) for x in range(4) for y in range(4) if (x in (0, 3) or y in (0, 3)) and rnd.random() < 0.4]
+        if special and i % 4 == 2:                       # unshaded / a single cell
+            R = [] if i % 8 == 2 else [(rnd.randrange(4), rnd.randrange(4))]
         out.append((p, R))
+    return out
+
+
+def jm(p, R):
+    return {"p": list(p), "R": [list(c) for c in R]}
+
+
+def cheap_events(ctx, rnd, quick):
+    """code -> spec, diagram level (no meaning involved, cheap for TLC): insertions in all five directions on ONE object
+    in a random order, add_increase / add_decrease afterwards, shade with several / no / repeated / already shaded cells,
+    region tests on degenerate, wide and tall rectangles, renderings with cell sizes 1-3; patterns of length 0-6 including
+    unshaded and fully shaded grids."""
+    ev = []
+    for it in range(40 if quick else 400):
+        k = rnd.choice([0, 1, 3, 4, 4, 5, 6])
+        p = util.rand_perm(rnd, k)
+        cells = [(x, y) for x in range(k + 1) for y in range(k + 1)]
+        dens = rnd.choice([0.0, 0.2, 0.5, 0.9, 1.0])
+        R = [c for c in cells if rnd.random() < dens]
+        M = MeshPatt(Perm(p), R)
+        base = jm(p, R)
+        free = [c for c in cells if c not in M.shading]
+        corners = [c for c in free if c[0] in (0, k) or c[1] in (0, k)]
+        picks = (rnd.sample(corners, min(2, len(corners))) + rnd.sample(free, min(2, len(free)))) if free else []
+        for c in picks:
+            dirs = list(DIRS)
+            rnd.shuffle(dirs)
+            for d in dirs + dirs[:2]:                     # all five on one object and one cell, then two of them again
+                st, A = util.call(lambda: M.add_point(c, DIRS[d]) if it % 2 else M.add_point(pos=c, shade_dir=DIRS[d]))
+                if st == "raise":
+                    ctx.violation(dict(kind="trace-form", op="add_point", cell=list(c), dir=d, **base), "NoException", "a pattern", A)
+                    continue
+                ev.append(dict(base, op="AddPoint", c=list(c), dir=d, resp=list(A.pattern), resR=[list(z) for z in A.shading]))
+            for kind, f in (("inc", M.add_increase), ("dec", M.add_decrease)):
+                st, A = util.call(f, c)
+                if st == "raise":
+                    ctx.violation(dict(kind="trace-form", op="add_" + kind, cell=list(c), **base), "NoException", "a pattern", A)
+                    continue
+                ev.append(dict(base, op="AddTwo", c=list(c), kind=kind, resp=list(A.pattern), resR=[list(z) for z in A.shading]))
+        for cs in ((), tuple(free[:1]), tuple(free[:3]), tuple(free[:1]) * 2, tuple(R[:1]) + tuple(free[-1:]), tuple(R[:2])):
+            st, A = util.call(M.shade, *cs)
+            if st == "raise":
+                ctx.violation(dict(kind="trace-form", op="shade", cells=[list(c) for c in cs], **base), "NoException", "a pattern", A)
+                continue
+            ev.append(dict(base, op="Shade", cells=[list(c) for c in cs], resp=list(A.pattern), resR=[list(z) for z in A.shading]))
+        rects = [(0, 0, k, k), (0, 0, 0, 0), (k, k, k, k), (0, 0, k, 0), (0, 0, 0, k), (0, k, k, k), (k, 0, k, k)]
+        for _ in range(8):
+            l, r = sorted((rnd.randint(0, k), rnd.randint(0, k)))
+            b, u = sorted((rnd.randint(0, k), rnd.randint(0, k)))
+            rects.append((l, b, r, u))
+        if k:
+            i = rnd.randrange(k)                          # rectangles touching a point on each side
+            rects += [(i, 0, i + 1, k), (0, p[i], k, p[i] + 1), (i, p[i], i + 1, p[i] + 1), (i + 1, 0, k, k), (0, 0, i, k), (i, p[i], k, p[i]), (i, p[i] + 1, k, p[i] + 1)]
+        for l, b, r, u in rects:
+            st, got = util.call(lambda: (M.is_shaded((l, b), (r, u)), M.is_pointfree((l, b), (r, u))))
+            if st == "raise":
+                ctx.violation(dict(kind="trace-form", op="is_shaded/is_pointfree", rect=[l, b, r, u], **base), "NoException", "two booleans", got)
+                continue
+            ev.append(dict(base, op="Rect", r=[l, b, r, u], shaded=got[0], pointfree=got[1]))
+        if k <= 4:
+            size = rnd.choice([1, 2, 2, 3])
+            st, txt = util.call(lambda: M.ascii_plot(size) if it % 2 else M.ascii_plot(cell_size=size))
+            if st == "raise":
+                ctx.violation(dict(kind="trace-form", op="ascii_plot", cell_size=size, **base), "NoException", "text", txt)
+            else:
+                ev.append(dict(base, op="Ascii", s=size, rows=parse_ascii(txt, k, size)))
+    return ev
+
+
+def licence_events(M, jp, jR, rnd, extra_pairs=4):
+    """Everything the real code licenses on M, through every entry point: single cells, adjacent pairs in both argument
+    orders, the table, and (whatever the code says about them) a few non-adjacent or repeated pairs."""
+    k = len(M)
+    seen, out = set(), []
+
+    def lic(cells):
+        key = frozenset(cells)
+        if key not in seen:
+            seen.add(key)
+            out.append({"op": "Licence", "p": jp, "R": jR, "cells": [list(c) for c in sorted(key)]})
+    for x in range(k + 1):
+        for y in range(k + 1):
+            if M.can_shade((x, y)):
+                lic([(x, y)])
+            for d in ((x + 1, y), (x, y + 1)):
+                if d[0] <= k and d[1] <= k and (M.can_simul_shade((x, y), d) or M.can_simul_shade(pos1=d, pos2=(x, y))):
+                    lic([(x, y), d])
+    for boxes in M.shadable_boxes().values():
+        for b in boxes:
+            lic([tuple(c) for c in b])
+    for _ in range(extra_pairs):
+        c = (rnd.randint(0, k), rnd.randint(0, k))
+        d = rnd.choice([c, (rnd.randint(0, k), rnd.randint(0, k)), (min(k, c[0] + 1), min(k, c[1] + 1))])
+        st, got = util.call(M.can_simul_shade, c, d)
+        if st == "ok" and got:
+            lic([c, d])
     return out
 
 
@@ -156,7 +300,17 @@ def run(ctx):
     for s in range(nsh):
         k = {"Mode": '"mesh"', "MinMesh": 0, "MaxMesh": 2, "MaxPerm": 4 if quick else 5, "Shard": s, "NShards": nsh, "Sample": "{}"}
         jobs.append(("C18_Shading", util.cfg(init="Init", next_="Stutter", invariants=INVS + ["EmitState"], constants=k), {"timeout": 3000}))
-    results = tlc.run_many(jobs, parallel=16)
+    # sampled patterns of length 3 as states of the same machine (meaning over permutations up to length 5)
+    smp = sorted({(p, tuple(sorted(R))) for p, R in sample3(rnd, 8 if quick else 96, special=True)})
+    per = 2 if quick else 6
+    sjobs = []
+    for i in range(0, len(smp), per):
+        sdef = "{" + ", ".join("[p |-> %s, R |-> {%s}]" % (tlc.tla(list(p)), ", ".join(tlc.tla(list(c)) for c in R)) for p, R in smp[i:i + per]) + "}"
+        k = {"Mode": '"sample"', "MinMesh": 0, "MaxMesh": 0, "MaxPerm": 5, "Shard": 0, "NShards": 1, "Sample": ("<-", "SampleDef")}
+        sjobs.append(("MC_C18", util.cfg(init="Init", next_="Stutter", invariants=INVS + ["EmitState"], constants=k),
+                      {"timeout": 3000, "files": {"MC_C18.tla": util.mc_module("MC_C18", "C18_Shading", {"SampleDef": sdef})}}))
+    nsmp = len(smp)
+    results = tlc.run_many(sjobs + jobs, parallel=16)
     n = 0
     for r in results:
         ctx.add_tlc(r, "mesh universe shard")
@@ -165,22 +319,31 @@ def run(ctx):
             judge_state(ctx, rec)
             if n % 401 == 0:
                 ctx.sample({"machine": "C18_Shading", "p": rec["p"], "R": rec["R"], "cells": rec["cells"][:3], "addp": rec["addp"][:1]})
-    if n != 1042:
-        raise tlc.MachineryFailure("C18: %d states, expected all 1042 mesh patterns of length <= 2" % n)
+    if n != 1042 + nsmp:
+        raise tlc.MachineryFailure("C18: %d states, expected all 1042 mesh patterns of length <= 2 and %d sampled ones of length 3" % (n, nsmp))
     ctx.exhaustive = True
     # ---- code -> spec: length-3 patterns, the code's licences and insertions judged by meaning ----
     events = []
     nlic = 0
+    nchain = 0
     for p, R in sample3(rnd, 60 if quick else 600):
         M = MeshPatt(Perm(p), R)
         jp, jR = list(p), [list(c) for c in R]
-        for x in range(4):
-            for y in range(4):
-                if M.can_shade((x, y)):
-                    events.append({"op": "Licence", "p": jp, "R": jR, "cells": [[x, y]]})
-                for d in ((x + 1, y), (x, y + 1)):
-                    if d[0] <= 3 and d[1] <= 3 and M.can_simul_shade((x, y), d):
-                        events.append({"op": "Licence", "p": jp, "R": jR, "cells": [[x, y], list(d)]})
+        st, lics = util.call(licence_events, M, jp, jR, rnd)
+        if st == "raise":
+            ctx.violation({"kind": "trace-form", "p": jp, "R": jR, "op": "can_shade / can_simul_shade / shadable_boxes"}, "NoException", "lists / a dict", lics)
+            continue
+        events += lics
+        # history: shade what was licensed and ask the new pattern (the lemma applied repeatedly)
+        if lics and nchain < (12 if quick else 200) and rnd.random() < 0.4:
+            nchain += 1
+            first = rnd.choice(lics)["cells"]
+            N = M.shade(*[tuple(c) for c in first])
+            more = licence_events(N, jp, [list(c) for c in sorted(N.shading)], rnd, extra_pairs=1)
+            events += more[:4]
+            for c in first:                                # the cell just shaded, asked again on the new object
+                if N.can_shade(tuple(c)):
+                    events.append({"op": "Licence", "p": jp, "R": [list(z) for z in sorted(N.shading)], "cells": [c]})
         free = [(x, y) for x in range(4) for y in range(4) if (x, y) not in M.shading]
         for c in free[:: max(1, len(free) // 3)]:
             d = rnd.choice(list(DIRS))
@@ -191,16 +354,35 @@ def run(ctx):
         raise tlc.MachineryFailure("C18: the sampled patterns produced no licence at all")
     cap = 400 if quick else 4000
     events = events[:cap]
+    # licences on patterns of length 4 (border shadings, sparse shadings), meaning over permutations up to length 6
+    ev4 = []
+    tries = 0
+    while len(ev4) < (16 if quick else 160) and tries < 400:
+        tries += 1
+        p = util.rand_perm(rnd, 4)
+        if tries % 2:
+            R = [(x, y) for x in range(5) for y in range(5) if (x in (0, 4) or y in (0, 4)) and rnd.random() < 0.35]
+        else:
+            R = [(x, y) for x in range(5) for y in range(5) if rnd.random() < 0.2]
+        got = licence_events(MeshPatt(Perm(p), R), list(p), [list(c) for c in R], rnd, extra_pairs=1)
+        rnd.shuffle(got)
+        ev4 += got[:2]
+    cheap = cheap_events(ctx, rnd, quick)
     # validated in parallel chunks (each licence costs ~150 containment tests)
     chunks = [events[i::8] for i in range(8)]
     k = {"Mode": '"trace"', "MinMesh": 0, "MaxMesh": 0, "MaxPerm": 5, "Shard": 0, "NShards": 1, "Sample": "{}"}
+    k6 = dict(k, MaxPerm=6)
+    work = [(ch, k) for ch in chunks] + [(ev4[i::4], k6) for i in range(4)] + [(cheap[i::2], k) for i in range(2)]
     import concurrent.futures
-    with concurrent.futures.ThreadPoolExecutor(max_workers=8) as ex:
-        vs = list(ex.map(lambda ch: util.validate_trace(ctx, "Trace_C18", ch, constants=k, ntraces=len(ch)) if ch else {"verdict": []}, chunks))
-    for ch, v in zip(chunks, vs):
+    with concurrent.futures.ThreadPoolExecutor(max_workers=14) as ex:
+        vs = list(ex.map(lambda w: util.validate_trace(ctx, "Trace_C18", w[0], constants=w[1], ntraces=len(w[0])) if w[0] else {"verdict": []}, work))
+    for (ch, _), v in zip(work, vs):
         for b in v["verdict"]:
             ev = ch[b["i"] - 1]
-            ctx.violation({"kind": "trace-event", "event": ev}, b["clause"], "meaning preserved / diagram insertion", ev)
+            ctx.violation({"kind": "trace-event", "event": ev}, b["clause"], "meaning preserved / diagram insertion / region test / rendering by definition", ev)
+    ctx.note("licences_judged_on_length4", len(ev4))
+    ctx.note("diagram_level_events", len(cheap))
+    events = events + ev4 + cheap
     ctx.case(n=len(events))
     ctx.note("licences_judged_on_length3", nlic)
     ctx.sample({"machine": "Trace_C18", "events": events[:2]})
